@@ -11,19 +11,19 @@
    Min/Max/Wrap are ordinary integers and therefore only defined here for
    widths <= 30 (TLC integers are 32-bit); the judge handles 32/64-bit operands
    through BigNat.tla / IntMathWide.tla.                                        *)
-EXTENDS Integers, Sequences
+EXTENDS Integers, Sequences, TLC
 
 Types == {"i8", "u8", "i16", "u16", "i32", "u32", "i64", "u64"}
 SignedTypes == {"i8", "i16", "i32", "i64"}
 UnsignedTypes == Types \ SignedTypes
 
-RealBits == [t \in Types |->
+RealBits == Tabulated([t \in Types |->
   CASE t \in {"i8", "u8"} -> 8 [] t \in {"i16", "u16"} -> 16
-    [] t \in {"i32", "u32"} -> 32 [] OTHER -> 64]
+    [] t \in {"i32", "u32"} -> 32 [] OTHER -> 64])
 (* scaled family: same order of widths, same signedness, "int" (= i32) is 6 bits *)
-ScaledBits == [t \in Types |->
+ScaledBits == Tabulated([t \in Types |->
   CASE t \in {"i8", "u8"} -> 3 [] t \in {"i16", "u16"} -> 4
-    [] t \in {"i32", "u32"} -> 6 [] OTHER -> 8]
+    [] t \in {"i32", "u32"} -> 6 [] OTHER -> 8])
 
 BitsTable == RealBits
 Bits(T) == BitsTable[T]
@@ -37,14 +37,17 @@ SignedOf(T) == CASE T \in {"i8", "u8"} -> "i8" [] T \in {"i16", "u16"} -> "i16"
 (* 2^n for 0 <= n <= 30 (a constant function: evaluated once) *)
 RECURSIVE P2r(_)
 P2r(n) == IF n = 0 THEN 1 ELSE 2 * P2r(n - 1)
-P2 == [n \in 0..30 |-> P2r(n)]
+(* "f @@ <<>>" makes TLC tabulate the function once instead of re-evaluating the body at every
+   application (TLC keeps [x \in S |-> e] as a closure) *)
+Tabulated(fn) == fn @@ <<>>
+P2 == Tabulated([n \in 0..30 |-> P2r(n)])
 
 Small(T) == Bits(T) <= 30   \* values of T are TLC integers
 
-MinTab == [t \in Types |-> IF BitsTable[t] > 30 THEN 0 ELSE IF t \in SignedTypes THEN -P2[BitsTable[t] - 1] ELSE 0]
-MaxTab == [t \in Types |-> IF BitsTable[t] > 30 THEN -1 ELSE
-                            IF t \in SignedTypes THEN P2[BitsTable[t] - 1] - 1 ELSE (P2[BitsTable[t] - 1] - 1) * 2 + 1]
-ModTab == [t \in Types |-> IF BitsTable[t] > 30 THEN 0 ELSE P2[BitsTable[t]]]
+MinTab == Tabulated([t \in Types |-> IF BitsTable[t] > 30 THEN 0 ELSE IF t \in SignedTypes THEN -P2[BitsTable[t] - 1] ELSE 0])
+MaxTab == Tabulated([t \in Types |-> IF BitsTable[t] > 30 THEN -1 ELSE
+                            IF t \in SignedTypes THEN P2[BitsTable[t] - 1] - 1 ELSE (P2[BitsTable[t] - 1] - 1) * 2 + 1])
+ModTab == Tabulated([t \in Types |-> IF BitsTable[t] > 30 THEN 0 ELSE P2[BitsTable[t]]])
 
 Min(T) == MinTab[T]
 Max(T) == MaxTab[T]
